@@ -210,7 +210,7 @@ fn row_lines_of(prog: &[Stmt], printed: &Printed, out: &mut Vec<usize>) {
 }
 
 fn valid_program(seed: u64) -> (Vec<String>, Vec<Stmt>) {
-    let mut g = Gen::new(seed, Knobs { max_virtuals: 2, allow_random: true, p_c: 0.05, p_x: 0.08, bidir: true, big_consts: seed % 4 == 0, max_stmts: 14, ..Knobs::control_flow() });
+    let mut g = Gen::new(seed, Knobs { max_virtuals: 2, allow_random: true, p_c: 0.05, p_x: 0.08, bidir: true, big_consts: seed % 4 == 0, max_stmts: 14, twin_literals: seed % 2 == 0, ..Knobs::control_flow() });
     let plan = g.plan();
     let prog = g.program(&plan);
     (plan.header, prog)
